@@ -78,6 +78,8 @@ type prover struct {
 	memo   map[ssa.Value]lin
 	extra  []lin // facts discovered while normalising (contracts)
 	notes  map[string]bool
+	// minFuncs: repo functions verified (by the caller) to return the smaller argument
+	minFuncs map[string]bool
 }
 
 func newProver() *prover {
@@ -259,6 +261,21 @@ func (p *prover) norm1(v ssa.Value) lin {
 			p.notes["contract: runtime.Callers(skip, pcs) returns 0 ≤ n ≤ len(pcs)"] = true
 			return r
 		}
+		if p.minFuncs[n] || verifiedMinFuncs[n] {
+			t := describe(v)
+			allNN := true
+			for _, a := range x.Call.Args {
+				la := p.norm(a)
+				p.extra = append(p.extra, la.add(linTerm(t), -1))
+				if !p.isNonneg(la) {
+					allNN = false
+				}
+			}
+			if allNN {
+				p.nonneg[t] = true // the result is one of the (non-negative) arguments
+			}
+			return linTerm(t)
+		}
 		if strings.HasPrefix(n, "internal/counter.round[") {
 			// round(x, unit): x ≤ r ≤ x + unit - 1 (unit a power of two; no wrap assumed here, see C05.wrap)
 			t := describe(v)
@@ -273,6 +290,17 @@ func (p *prover) norm1(v ssa.Value) lin {
 			}
 			p.notes["contract: round(x, unit) returns x ≤ r < x + unit"] = true
 			return r
+		}
+	case *ssa.Extract:
+		// key of a range over a string: 0 ≤ i < len(s)
+		if nx, ok := x.Tuple.(*ssa.Next); ok && x.Index == 1 {
+			if rg, ok := nx.Iter.(*ssa.Range); ok && isStringy(rg.X.Type()) {
+				t := describe(v)
+				p.nonneg[t] = true
+				p.extra = append(p.extra, p.lenOf(rg.X).add(linTerm(t), -1).add(linConst(1), -1))
+				p.notes["contract: the key of a range over a string is a valid byte index"] = true
+				return linTerm(t)
+			}
 		}
 	case *ssa.Phi:
 		// induction variable: edges are constants and (phi + positive constant) ⇒ phi ≥ min constant
@@ -421,3 +449,6 @@ func (p *prover) factsLinAt(in ssa.Instruction) []lin {
 	}
 	return out
 }
+
+// verifiedMinFuncs: repo functions whose bodies a rule has verified to return the smaller argument.
+var verifiedMinFuncs = map[string]bool{}
